@@ -123,10 +123,10 @@ def r3_monitor(ctx):
     ctx.ob("R14.3", "monitor:elapsed-is-now-minus-last-response", direct, "src/session/session.rs:%s" % hb.blocks[gt[0].block]["tspan"]["line"],
            "give-up test compares now.saturating_duration_since(*last_received) with the timeout" if direct else
            "the monitor's elapsed value is `%s`: not a direct difference between now and the stored instant (a defaulted/optional reference makes a never-answering peer look fresh for ever)" % fmt(lhs)[:120])
-    okr = var_name(rhs) == "heartbeat_state.timeout"
-    ctx.ob("R14.3", "monitor:threshold-is-configured-timeout", okr, "", "threshold = heartbeat_state.timeout" if okr else "threshold is %s" % fmt(rhs))
+    okr = (var_name(rhs) or "").endswith(".timeout") and "." in (var_name(rhs) or "")
+    ctx.ob("R14.3", "monitor:threshold-is-configured-timeout", okr, "", "threshold = the HeartbeatState's timeout field" if okr else "threshold is %s" % fmt(rhs))
     iv = calls_norm(hb, "time::interval")
-    oki = bool(iv) and var_name(o.of_operand(iv[0].args[0])) == "heartbeat_state.interval"
+    oki = bool(iv) and (var_name(o.of_operand(iv[0].args[0])) or "").endswith(".interval")
     ctx.ob("R14.3", "monitor:period-is-configured-interval", oki, iv[0].site if iv else "", "tick period = heartbeat_state.interval" if oki else "tick period is not the configured interval")
     # every tick that does not give up sends a request
     ticks = [c for c in hb.calls() if (c.norm or "").endswith("Interval::tick")]
